@@ -8,7 +8,8 @@ XDECL = ["// XT is declared in the file under test.", "// @immutable", "type XT 
 def build_files(sc, sid):
     s = sc["sc"]
     cls = s["cls"]
-    pkgs = [{"path": "m/d", "name": "d", "files": [{"name": "d/d.go", "src": gen_all.D_SRC}]}]
+    pkgs = [{"path": "m/d", "name": "d", "files": [{"name": "d/d.go", "src": gen_all.D_SRC}]},
+            {"path": "m/lib", "name": "lib", "files": [{"name": "lib/lib.go", "src": "package lib\n\n// I is a contract.\ntype I interface {\n\tM()\n}\n"}]}]
     where = {}
     # ---- file X
     xdir, xpkg, xname = {
@@ -19,7 +20,7 @@ def build_files(sc, sid):
     x = []
     if s["ign"]:
         x.append("// @ignore ALL")
-    x += ["package " + xpkg, "", 'import "m/d"', ""]
+    x += ["package " + xpkg, "", "import (", '\t"m/d"', '\t"m/lib"', ")", "", "var _ lib.I", ""]
     if s["ann"]:
         x += XDECL
     if s["viol"]:
@@ -45,6 +46,10 @@ def build_files(sc, sid):
         a.append("\t_ = %sXF(5)" % ("q." if cls in ("tdpath", "genpath") else ""))
         where["A3"] = ("p/a.go", len(a), "TONL02")
         a += ["}", ""]
+    # the qualifier lib is not bound in a.go (only file X imports m/lib)
+    a += ["// AI claims an interface of a package this file does not import.", "// @implements lib.I", "type AI struct{}"]
+    where["A4"] = ("p/a.go", len(a), "IMPL01")
+    a += ["", "func (AI) M() {}", ""]
     asrc = "\n".join(a) + "\n"
     pfiles = [{"name": "p/a.go", "src": asrc}]
     if cls in ("tdpath", "genpath"):
